@@ -103,10 +103,15 @@ def check_row(type_, v, bs, t):
     exp['type'] = type_
     exp['time'] = t
     for how, arg in (('from_bytes/list', bs), ('from_bytes/bytes', bytes(bs)),
-                     ('from_bytes/bin', m.bin()), ('from_hex', None)):
+                     ('from_bytes/bin', m.bin()), ('from_hex', None),
+                     ('from_bytes/positional-time', tuple(bs)), ('from_hex/positional-time', None)):
         try:
             if how == 'from_hex':
                 d = Message.from_hex(hx, time=t)
+            elif how == 'from_hex/positional-time':
+                d = Message.from_hex(hx, t)
+            elif how == 'from_bytes/positional-time':
+                d = Message.from_bytes(arg, t)              # documented signature: from_bytes(data, time=0)
             else:
                 d = Message.from_bytes(arg, time=t)
         except Exception as e:
@@ -129,6 +134,26 @@ def check_row(type_, v, bs, t):
             return how + '/time-assign', 'assigning time on the decoded message raised %r' % (e,)
     if m.time != t or type(m.time) is not type(t):
         return 'aliasing', 'the original message changed when a decoded one was modified'
+    if type_ == 'sysex':
+        # the same message built in two steps: the payload assigned afterwards, from every kind of sequence
+        payload = list(attrs['data'])
+        for kind, seq in (('list', list(payload)), ('bytes', bytes(payload)), ('bytearray', bytearray(payload)),
+                          ('tuple', tuple(payload)), ('generator', (x for x in payload))):
+            try:
+                a = Message('sysex', time=t)
+                a.data = seq
+                if kind == 'generator':
+                    continue             # (a one-shot iterable is used up by the check: documented quirk)
+                if not (a == m) or list(a.bytes()) != bs or not (Message.from_bytes(a.bytes(), time=t) == a):
+                    return 'assigned-data/' + kind, 'sysex with data assigned from a %s: %s, bytes %r' % (
+                        kind, core.srepr(a), a.bytes())
+                if isinstance(seq, (list, bytearray)):
+                    seq[:] = [0x90, 0x10][:len(seq)]        # the caller's buffer stays the caller's
+                    if list(a.bytes()) != bs:
+                        return 'assigned-data-aliased/' + kind, 'changing the %s afterwards changed the message to %r' % (
+                            kind, a.bytes())
+            except Exception as e:
+                return 'assigned-data-raises/' + kind, repr(e)
     return None
 
 
